@@ -26,7 +26,7 @@ const flow2Tmpl = `name: c17flow%[1]s
 
 filter:
   url: "%[2]s"
-
+%[7]s
 processors:
   F%[1]s:
     processor: Filter
@@ -166,19 +166,31 @@ const (
 	pathOther = host2 + "/invoices"
 )
 
-func newEngine2(scratch string, specs map[string]flow2Spec, lo, hi, timeout int) (*engine2Inst, error) {
+func newEngine2(scratch string, specs map[string]flow2Spec, lo, hi, timeout int, same bool, lists map[string][]int) (*engine2Inst, error) {
 	engineGlobalSetup(scratch)
 	engineSeq++
 	dir := filepath.Join(scratch, fmt.Sprintf("e%d", engineSeq))
 	for _, d := range []string{"flows", "quotas", "path_params"} {
 		must(os.MkdirAll(filepath.Join(dir, d), 0o755))
 	}
-	for letter, url := range map[string]string{"A": urlFlowA, "B": urlFlowB} {
+	urlB := urlFlowB
+	if same {
+		urlB = urlFlowA // both flows on ONE url pattern, told apart by their status_code lists only
+	}
+	for letter, url := range map[string]string{"A": urlFlowA, "B": urlB} {
 		sp, ok := specs[letter]
 		if !ok {
 			continue
 		}
-		y := fmt.Sprintf(flow2Tmpl, letter, url, lo, hi, sp.key, sp.attempts)
+		statusLine := ""
+		if l := lists[letter]; len(l) > 0 {
+			parts := make([]string, len(l))
+			for i, v := range l {
+				parts[i] = fmt.Sprint(v)
+			}
+			statusLine = "  status_code: [" + strings.Join(parts, ", ") + "]\n"
+		}
+		y := fmt.Sprintf(flow2Tmpl, letter, url, lo, hi, sp.key, sp.attempts, statusLine)
 		must(os.WriteFile(filepath.Join(dir, "flows", "flow"+letter+".yaml"), []byte(y), 0o644))
 	}
 	environment.SetStreamsFlowsDirectory(filepath.Join(dir, "flows"))
